@@ -711,7 +711,7 @@ pub fn tier_runs(prop: Prop, tier: &str) -> u64 {
         Prop::C17 => 600_000,
     };
     let scale: u64 = match tier {
-        "thorough" => 50,
+        "thorough" => 30,
         _ => 1,
     };
     let n = quick * scale;
